@@ -14,6 +14,12 @@ def _c15_out_kind(o):
         if "~e" in o:
             return "cs/csa/csm: refresh with a failed keyspace fetch, older version reused"
         return "cs/csa/csm: refresh history, every fetch ok"
+    if o.startswith("learnrf "):
+        ev = dict(w.split("=", 1) for w in o.split(" ")[1:] if "=" in w).get("events", "")
+        names = dict(n="plain", d="dc-change", r="host-replaced", a="host-joined", v="view-dropped", V="view-re-created")
+        return "e2e learnrf (refresh events: %s)" % "+".join(sorted(set(names.get(c, c) for c in ev)))
+    if o.startswith("e2e-skip"):
+        return o
     if o.startswith("learn "):
         f = dict(w.split("=", 1) for w in o.split(" ")[1:] if "=" in w)
         return "e2e learn (malformed payloads: %s; taught by the response after a re-prepare: %s)" % (
@@ -26,17 +32,17 @@ def _c15_out_kind(o):
 
 
 PROPS["C15"] = dict(
-    level_text="Theorems (Props/C15.lean), for every history of any length over unbounded tokens. TABLE level: the tablet list stays sorted with prev.last < next.first and first <= last (the standard library's binary search - modelled loop by loop - is therefore applied to a partitioned list: its precondition is a lemma); tablet_for_token answers exactly the latest insert covering the token, as later maintenance left it (replicas included), unless a later insert overlapped it or maintenance discarded it - then nothing (lookup_refines, lookup_answer_is_latest, lookupSpec_eq_survive); an insert removes exactly the overlapping tablets; per-datacenter replicas are the order-preserving filter of the full list; an accepted payload (a, b] becomes [a+1, b] with a < b, rejected iff b <= a, down to the bytes. TABLETSINFO level: every table of the map is the table-level run of its own valid sub-history (info_projection: the gate on removed / recreated / has_unknown_replicas, dropped tables, empty entries; FlagsHonest), so every table-level theorem holds for every table; tables AND materialized views of tablet keyspaces are kept (maintenanceKs_entry_iff). CLUSTERSTATE level (KState/KOp/krun: batches, refreshes with the raw per-keyspace fetch result, topology-only refreshes, the state's keyspaces threaded by the model): every replica any lookup serves after any refresh is a host of the new known_nodes and the Node object registered there (stateOk_refresh, refresh_lookups_current; hosts removed, added, replaced in one refresh, Node objects re-created, all four arms of calculate_new_topology); what a refresh does to one table is exactly the per-tablet maintenance of its old tablets (refresh_table_tablets); a keyspace whose fetch FAILED keeps its old version and its tablets, over all reachable states (krun_failed_fetch_keeps_tablets, krun_kss_nodup), without an old version it is dropped with its tablets (refresh_fetch_failed_no_old), a successful fetch keeps exactly the tables and views that still exist in a tablet keyspace (refresh_ok_fetch_keeps_exactly / _drops_others); one update_tablets call is its single learns in order (brun_eq_crun, batch_lookup_refines); datacenter restriction through the locator's tablet branch (locator_dc_restrict); what one response can teach and under which table (tabletFromResponse_some / _malformed / _nothing). The models are tied to tablets.rs, cluster/state.rs, locator/mod.rs and network/connection.rs by a differential run - exhaustive histories over a 6-token universe, long random histories over full i64, maintenance, TabletsInfo with views, payload bytes, refresh histories on the real ClusterState in three host-filter modes (cs / csa / csm) with two keyspaces, failed fetches, batches and the public readers get_token_endpoints / get_endpoints compared with the locator - and by an end-to-end family on a real Session (e2e learn: three tables, malformed payloads, re-prepared statements), each judged by a brute-force history shadow.",
-    level_note="Trusted: Lean kernel + {propext, Classical.choice, Quot.sound}; hand-written models Model/Tablets.lean, Model/TabletsRefresh.lean (tie = differential harness through the cfg(scylla_verif) pass-throughs VerifTablets / raw_tablet_from_payload / cluster_state_general / cluster_state_filtered / cluster_refresh_topology[_accepting|_filtered] / ClusterState::verif_update_tablets / verif_tablet_tables; the connection's learning glue by an end-to-end family on a real Session (e2e learn)); Arc<Node> identity modelled by a generation counter; HashMaps as association lists (only looked up by key, dumps sorted).",
+    level_text="Theorems (Props/C15.lean), for every history of any length over unbounded tokens. TABLE level: the tablet list stays sorted with prev.last < next.first and first <= last (the standard library's binary search - modelled loop by loop - is therefore applied to a partitioned list: its precondition is a lemma); tablet_for_token answers exactly the latest insert covering the token, as later maintenance left it (replicas included), unless a later insert overlapped it or maintenance discarded it - then nothing (lookup_refines, lookup_answer_is_latest, lookupSpec_eq_survive); an insert removes exactly the overlapping tablets; per-datacenter replicas are the order-preserving filter of the full list; an accepted payload (a, b] becomes [a+1, b] with a < b, rejected iff b <= a, down to the bytes. TABLETSINFO level: every table of the map is the table-level run of its own valid sub-history (info_projection: the gate on removed / recreated / has_unknown_replicas, dropped tables, empty entries; FlagsHonest), so every table-level theorem holds for every table; tables AND materialized views of tablet keyspaces are kept (maintenanceKs_entry_iff). CLUSTERSTATE level (KState/KOp/krun: batches, refreshes with the raw per-keyspace fetch result, topology-only refreshes, the state's keyspaces threaded by the model): every replica any lookup serves after any refresh is a host of the new known_nodes and the Node object registered there (stateOk_refresh, refresh_lookups_current; hosts removed, added, replaced in one refresh, Node objects re-created, all four arms of calculate_new_topology); what a refresh does to one table is exactly the per-tablet maintenance of its old tablets (refresh_table_tablets); a keyspace whose fetch FAILED keeps its old version and its tablets, over all reachable states (krun_failed_fetch_keeps_tablets, krun_kss_nodup), without an old version it is dropped with its tablets (refresh_fetch_failed_no_old), a successful fetch keeps exactly the tables and views that still exist in a tablet keyspace (refresh_ok_fetch_keeps_exactly / _drops_others); one update_tablets call is its single learns in order (brun_eq_crun, batch_lookup_refines); datacenter restriction through the locator's tablet branch (locator_dc_restrict); what one response can teach and under which table (tabletFromResponse_some / _malformed / _nothing). The models are tied to tablets.rs, cluster/state.rs, locator/mod.rs and network/connection.rs by a differential run - exhaustive histories over a 6-token universe, long random histories over full i64, maintenance, TabletsInfo with views, payload bytes, refresh histories on the real ClusterState in three host-filter modes (cs / csa / csm) with two keyspaces, failed fetches, batches and the public reader get_token_endpoints compared with the locator on every scan (get_endpoints there only at the one token of the empty key, and not at all for views: compute_token reads `tables` only) - and by two end-to-end families on a real Session, each judged by a brute-force history shadow: e2e learn (three tables, malformed payloads, re-prepared statements; static topology) and e2e learnrf (two tables and a materialized view; tablets learnt, then Session::refresh_metadata() after a node changed datacenter / was replaced under a new host id / joined / the view was dropped or re-created, with more tablets learnt WHILE the refresh is in flight, replicas on not-yet-known and never-known hosts; after every refresh every probe token of every table, Node object identity against the published state, and get_endpoints of six keys against a reference Murmur3 token).",
+    level_note="Trusted: Lean kernel + {propext, Classical.choice, Quot.sound}; hand-written models Model/Tablets.lean, Model/TabletsRefresh.lean (tie = differential harness through the cfg(scylla_verif) pass-throughs VerifTablets / raw_tablet_from_payload / cluster_state_general / cluster_state_filtered / cluster_refresh_topology[_accepting|_filtered] / ClusterState::verif_update_tablets / verif_tablet_tables; the connection's learning glue and the worker's tablets / metadata arms by two end-to-end families on a real Session (e2e learn, e2e learnrf)); Arc<Node> identity modelled by a generation counter; HashMaps as association lists (only looked up by key, dumps sorted).",
     lean_modules=["ScyllaVerif.Props.C15"],
-    rule="case = one history (tab), one refresh history on a ClusterState (cs: rejecting host filter, csa: accepting, csm: per-peer verdicts), one end-to-end learning history on a real Session (e2e learn), one payload cell (payload) or one exhaustive subtree (exh); distinct case lines whose implementation output contains at least one answered lookup / non-empty dump / accepted-or-rejected payload / visited history count as non-trivial",
+    rule="case = one history (tab), one refresh history on a ClusterState (cs: rejecting host filter, csa: accepting, csm: per-peer verdicts), one end-to-end learning history on a real Session (e2e learn; e2e learnrf: with metadata refreshes), one payload cell (payload) or one exhaustive subtree (exh); distinct case lines whose implementation output contains at least one answered lookup / non-empty dump / accepted-or-rejected payload / visited history count as non-trivial",
     trivial=lambda c, o: o in ("-", "bad-case", "absent") or (c.startswith(("tab ", "cs ", "csa ", "csm ")) and ":" not in o and "." not in o),
     out_kind=_c15_out_kind,
     trusted=[
         "Model/Tablets.lean transcribes tablets.rs:66-122 (payload), 135-169, 252-334, 379-479, 533-548, 608-672 and core::slice::binary_search_by/partition_point of the toolchain's std (1.95: fixed-iteration base/size loop)",
         "Model/TabletsRefresh.lean transcribes cluster/state.rs:275-341 (calculate_new_topology: which Node objects are kept / re-created), 375-406 (perform_tablets_maintenance: removed and re-created hosts from old vs new known_nodes), 172-201 (new), 204-240 (new_updated), 242-270 (new_with_updated_topology), 647-675 (update_tablets: the loop over ONE batch in order, translator over known_nodes built once)",
         "calculate_new_topology (state.rs:291-331) is driven in all four arms: `cs` (filter rejects every peer, nodes not enabled), `csa` (filter accepts every peer, nodes enabled), `csm` (per-peer verdicts that change between refreshes: an enabled old node meets a rejecting filter - :304 - and a disabled one an accepting filter - :324); in C15's output a node made by inherit_with_ip_changed is indistinguishable from one made by Node::new (both are new objects: the tablets must point to them)",
-        "Connection::update_tablets_from_response (network/connection.rs:1973-1996, callers 1092-1098 / 1136-1140) = Model/TabletsRefresh.lean tabletFromResponse (tabletFromResponse_some / _malformed / _nothing); tied by the `e2e learn` family only (a real Session on the mock cluster, three tables, well-formed / malformed / absent payloads, an unprepared query) through a shadow oracle - e2e lines are echoed by the model driver",
+        "Connection::update_tablets_from_response (network/connection.rs:1973-1996, callers 1092-1098 / 1136-1140) = Model/TabletsRefresh.lean tabletFromResponse (tabletFromResponse_some / _malformed / _nothing); tied by the `e2e learn` / `e2e learnrf` families only (a real Session on the mock cluster; learn: three tables, well-formed / malformed / absent payloads, an unprepared query; learnrf: two tables and a view, refreshes with topology and schema events) through a shadow oracle - e2e lines are echoed by the model driver",
         "resolve_metadata_keyspaces (state.rs:345-373) = Model/TabletsRefresh.lean resolveKeyspaces / refreshFetched (a failed fetch reuses the previous state's keyspace or drops it; refresh_fetch_ok / refresh_fetch_failed_old / refresh_fetch_failed_no_old), driven by the `!e` schema of the `P` ops through cluster_state_general",
         "materialized views: tablets.rs 627-628 (`tables.contains_key || views.contains_key`) and 639-641 (`.chain(ks.views.keys())`) are modelled as membership in / iteration over `tables ++ views` (KsMeta.entry, Info.maintenanceKs; maintenanceKs_entry_iff) and driven with tables and views apart at TabletsInfo level (info_maintenance_with_views) and through the real ClusterState (cluster_refresh_with_views)",
         "new_with_updated_topology (state.rs:242-270) = refresh with the keyspaces of the previous state (refreshTopology), driven by the `N` op through cluster_refresh_topology; the tablet branch of ReplicaLocator::replicas_for_token (locator/mod.rs:111-124) is Model/TabletsRefresh.lean locatorTabletReplicas (the vnode fallback for tables outside the tablet map is not this property: printed as `notable`)",
@@ -49,8 +55,11 @@ PROPS["C15"] = dict(
     partial=[
         "in the `csa` / `csm` histories a node is `enabled` because the hook imposes it (Node::verif_override_state, set to the filter's verdict), not because a connection pool is up: how is_enabled() follows the pool's life cycle is outside C15 (C10/C12)",
         "schema inputs are taken as given: which keyspaces a fetch returns (SchemaMetadataFetchMode, keyspaces_to_fetch), how `tablet_based` is derived from system_schema.scylla_keyspaces.initial_tablets and where a per-keyspace Err comes from (metadata/fetching.rs) are not modelled; consequence recorded as refresh_without_schema_drops_all: with schema fetching disabled every refresh empties the tablet map",
-        "a full tablet channel (capacity 8192; send().await vs try_send) and the cluster worker's recv_many / clone / publish loop (cluster/worker.rs:295-322) are not driven by C15 (the worker side is C19's)",
-        "ReplicaSet::PlainSharded beyond iteration (len / get / nth / size_hint / ReplicasOrdered, locator/mod.rs) is not exercised: C15 reads the tablet branch through `into_iter` only",
+        "the cluster worker's two arms (cluster/worker.rs:295-322 tablets: recv_many / clone / update / publish; 392-475 metadata: load_full, new_updated, wait for pools, publish) have NO Lean model: that tablets learnt before and during a refresh survive it is checked by the `e2e learnrf` family only (a run, not a theorem; the window between load_full and publish is a few milliseconds of pool set-up on the mock cluster, so a change that loses tablets only inside that window is caught with a probability, not with certainty); a full tablet channel (capacity 8192; send().await vs try_send) is not driven",
+        "table identity is the NAME: tablets.rs:617-629 keeps an entry when a table or view of that name exists in the new schema, so a table dropped and re-created (DROP + CREATE, or a keyspace dropped and re-created - the code's own note at 605-607) between two refreshes keeps the tablets of its predecessor until they are overwritten; refresh_ok_fetch_keeps_exactly says `still exists` BY NAME (KsMeta has no table id), which is weaker than the property text's `nothing rather than stale data` for this history",
+        "fetch_schema_metadata(false) on a real Session and a per-keyspace fetch error on a real Session are not driven end to end (the ClusterState level drives both through cluster_state_general)",
+        "get_table_spec (prepared.rs:412-417) takes the table of the FIRST bind marker: a prepared statement without bind markers never learns tablets (not driven)",
+        "ReplicaSet::PlainSharded beyond iteration (len / choose_filtered / get / nth / size_hint / ReplicasOrdered, locator/mod.rs:345, 390 - what DefaultPolicy::pick uses, default.rs:805) is not exercised here: C15 reads the tablet branch through `into_iter` only; len / choose are declared and driven by C05's `tplan` cases",
     ],
     shrink=dict(head_words=1, sep=";"),
     chunk=1500,
